@@ -93,7 +93,7 @@ CreateAccepts ==
     IF seen = {} THEN ~Ev.ok /\ Ev.err = "InvalidArchive"
     ELSE /\ Ev.ok
          /\ Obs(Ev) \in RefCreate(seen, X, RegT, I.override)
-         /\ Ev.allfiles = (IF IsClusterDir(seen) THEN "archives" ELSE "listing")
+         /\ IF IsClusterDir(seen) THEN Ev.af_archives ELSE Ev.af_listing
 
 (* ---- seed ---- *)
 SeedAccepts ==
@@ -131,6 +131,7 @@ Accepts ==
 B(b, s) == IF b THEN s ELSE ""
 PackTag == ":pack=" \o I.pack
 EvilTag == B(I.evil # "none", ":member=" \o I.evil) \o B(I.space # "none", ":blank-in-extraction-path")
+BlankTag == B(I.space = "exdirx", ":directory-named-by-the-text-before-the-blank")
 (* a segment that merely starts with marker m precedes a real m segment in some listed file *)
 ShadowedBy(m) ==
     \E p \in seen : \E k \in DOMAIN p : p[k] = NearMiss(m) /\ (\A j \in 1..(k - 1) : p[j] # m)
@@ -167,7 +168,7 @@ ChoiceDiag(e, S) ==      \* e: observed [cls, up, down]; S: allowed choices
 
 Diagnose ==
     CASE Ev.ev = "extract" ->
-            IF Ev.outside # <<>> THEN "ExtractionStaysInTempDir:during-extraction" \o PackTag \o EvilTag
+            IF Ev.outside # <<>> THEN "ExtractionStaysInTempDir:during-extraction" \o EvilTag \o BlankTag
             ELSE IF ~Ev.ok THEN "Extract:failed" \o PackTag \o EvilTag
             ELSE IF ~(Ev.made /\ Ev.under) THEN "Extract:not-a-fresh-directory-below-extract_dir" \o PackTag
             ELSE IF I.pack \in {"badgz", "text"} THEN "Extract:accepted-what-is-no-archive" \o PackTag
@@ -210,7 +211,7 @@ Diagnose ==
                 "TempDirRemoved:" \o (IF Ev.left = "none" THEN "after-normal-exit"
                                       ELSE IF Ev.left \in {"Injected", "InvalidArchive"} THEN "after-error-in-block"
                                       ELSE "after-failed-extraction") \o EvilTag
-            ELSE IF Ev.outside # <<>> THEN "ExtractionStaysInTempDir:after-cleanup" \o PackTag \o EvilTag
+            ELSE IF Ev.outside # <<>> THEN "ExtractionStaysInTempDir:after-cleanup" \o EvilTag \o BlankTag
             ELSE IF Ev.made # (IF I.pack = "dir" \/ I.pack = "text" THEN 0 ELSE 1) THEN "TempDir:directories-made" \o PackTag
             ELSE "Cleanup:exception-leaving-the-block:" \o Ev.left
       [] Ev.ev = "same" ->
